@@ -121,6 +121,9 @@ pub mod sim {
         pub REQUIRE_LOCK: bool,
         /// value returned by the stub of std::thread::panicking()
         pub PANICKING: bool,
+        /// when set, the stub of std::thread::panicking() (which call-count verification consults
+        /// on a mismatch) requires every faked function to be restored already
+        pub VERIFY_EXPECTS_RESTORED: bool,
         /// scratch cells for harnesses (symbolic budgets, effect values, ...)
         pub CELL: [u64; 8],
         /// backing store for symbolic `&'static str` signatures
@@ -162,6 +165,7 @@ pub mod sim {
         UNLOCKED_WRITE: false,
         REQUIRE_LOCK: false,
         PANICKING: false,
+        VERIFY_EXPECTS_RESTORED: false,
         CELL: [0; 8],
         SIGBUF: [[0x20; 24]; 2],
         NO_TOUCH: false,
@@ -182,17 +186,38 @@ pub mod sim {
         S.UNLOCKED_WRITE = false;
         S.REQUIRE_LOCK = false;
         S.PANICKING = false;
+        S.VERIFY_EXPECTS_RESTORED = false;
         S.MPROTECT_MAY_FAIL = false;
         S.ANY_FORCE_AT = 0;
         S.ALLOC_STRICT = false;
         S.NO_TOUCH = false;
     }
 
-    /// simulated addresses are plain integers below 2^47; anything else is a real
-    /// (CBMC object) pointer
+    /// Simulated addresses are plain integers below 2^47, plus the base of any registered
+    /// region (entries registered at the address Kani gives a real function, e.g. the
+    /// `<F as Future>::poll` that the async API patches, and trampolines placed next to them).
+    /// Anything else is a real (CBMC object) pointer.
     #[inline]
     pub fn is_sim(addr: u64) -> bool {
-        addr < USER_TOP
+        addr < USER_TOP || unsafe { is_region_base(addr) }
+    }
+    pub unsafe fn is_region_base(addr: u64) -> bool {
+        let mut r = false;
+        let mut i = 0;
+        while i < S.NE_ACT {
+            if ENT[i].live && ENT[i].base == addr {
+                r = true;
+            }
+            i += 1;
+        }
+        let mut j = 0;
+        while j < S.NJ_ACT {
+            if JIT[j].base != 0 && JIT[j].base == addr {
+                r = true;
+            }
+            j += 1;
+        }
+        r
     }
 
     #[inline]
@@ -212,6 +237,19 @@ pub mod sim {
         e.live = true;
         e.slot = slot;
         e.bytes = bytes;
+    }
+
+    /// every registered entry has been written an even number of times (each patch undone)
+    pub unsafe fn all_entries_restored() -> bool {
+        let mut ok = true;
+        let mut i = 0;
+        while i < S.NE_ACT {
+            if ENT[i].live && ENT[i].nwrites % 2 != 0 {
+                ok = false;
+            }
+            i += 1;
+        }
+        ok
     }
 
     /// number of currently mapped trampolines
@@ -518,7 +556,9 @@ pub unsafe fn mmap(
     match sim::S.MODE {
         0 => {
             let r = nondet_u64();
-            assume(r & (sim::S.PAGE - 1) == 0 && r >= sim::S.PAGE && r < sim::USER_TOP - maplen);
+            // functions that live at an address Kani assigned (>= 2^47) get their trampoline next to them
+            let top = if sim::S.COOP_CENTER >= sim::USER_TOP { u64::MAX - (1 << 30) } else { sim::USER_TOP - maplen };
+            assume(r & (sim::S.PAGE - 1) == 0 && r >= sim::S.PAGE && r < top);
             assume(r.abs_diff(sim::S.COOP_CENTER) <= sim::S.COOP_RANGE);
             assume(!sim::collides(r, maplen));
             new_mapping(r, len)
@@ -576,7 +616,7 @@ pub unsafe fn munmap(addr: *mut c_void, len: size_t) -> c_int {
         }
         j += 1;
     }
-    panic!("VERIF[C12]: munmap of an address that is not a live trampoline mapping (double free, or memory the injector does not own)");
+    panic!("VERIF[C12,C03,C11]: munmap of an address that is not a live trampoline mapping (double free, or memory the injector does not own)");
 }
 
 pub unsafe fn mprotect(addr: *mut c_void, len: size_t, prot: c_int) -> c_int {
